@@ -99,6 +99,20 @@ def generated_queries(tier='quick'):
         q.append((f'part-{tag}-then-table', f'SELECT * FROM int1.tbl1 AS t {jk} mindsdb.pred AS m JOIN int2.tbl2 AS t2 ON t2.id = t.id USING partition_size = 10'))
         q.append((f'part-table-then-{tag}', f'SELECT * FROM int1.tbl1 AS t JOIN int2.tbl2 AS t2 ON t2.id = t.id {jk} mindsdb.pred AS m USING partition_size = 10'))
         q.append((f'part-{tag}-two-models', f'SELECT * FROM int1.tbl1 AS t {jk} mindsdb.pred AS m {jk} proj.pred2 AS m2 USING partition_size = 5'))
+        # a plain table fetched while the map-reduce container is still open: no ON clause, a non-equality ON, an ON against model columns only
+        q.append((f'part-{tag}-then-table-noon', f'SELECT * FROM int1.tbl1 AS t {jk} mindsdb.pred AS m JOIN int2.tbl2 AS t2 USING partition_size = 10'))
+        q.append((f'part-{tag}-then-table-gt', f'SELECT * FROM int1.tbl1 AS t {jk} mindsdb.pred AS m JOIN int2.tbl2 AS t2 ON t2.id > t.id USING partition_size = 10'))
+        q.append((f'part-{tag}-then-table-model-col', f'SELECT * FROM int1.tbl1 AS t {jk} mindsdb.pred AS m JOIN int2.tbl2 AS t2 ON m.p = t2.id USING partition_size = 10'))
+        q.append((f'part-{tag}-two-models-then-table', f'SELECT * FROM int1.tbl1 AS t {jk} mindsdb.pred AS m {jk} proj.pred2 AS m2 LEFT JOIN int2.tbl2 AS t2 ON t2.a = 1 USING partition_size = 5'))
+        q.append((f'part-{tag}-then-subselect', f'SELECT * FROM int1.tbl1 AS t {jk} mindsdb.pred AS m JOIN (SELECT * FROM int2.tbl2 WHERE a = 1) AS s USING partition_size = 10'))
+    # join conditions of every shape between two data tables (and before a model): the planner may use or ignore them, never crash on them
+    for i, on in enumerate(['t2.name = lower(t1.name)', 'lower(t2.name) = t1.name', 't2.id = t1.id + 1', 't2.id = CAST(t1.id AS int)', 't2.id = id2', 'id1 = t2.id', 't2.id > t1.id',
+                            't2.id = t1.id AND t2.a = 5', 't2.a = 5', '1 = 1', 't2.id = t1.id OR t2.a = 1', 'NOT t2.id = t1.id', 't2.id IN (1, 2)', 't2.id = (SELECT max(id) FROM int1.tbl3)',
+                            't2.id BETWEEN t1.a AND t1.b', 't2.id IS NULL', "t2.name = concat('x', t1.name)", 't2.id = - t1.id', 't2.id = t1.id AND t2.name = upper(t1.name)', 't2.a = @v',
+                            't2.id = t3.id', 't2.id = coalesce(t1.id, 0)', 't2.flag = TRUE', 't2.id = NULL']):
+        for jk in ('JOIN', 'LEFT JOIN'):
+            q.append((f'on-shape-{i}-{jk.split()[0].lower()}', f'SELECT * FROM int1.tbl1 AS t1 {jk} int2.tbl2 AS t2 ON {on}'))
+        q.append((f'on-shape-{i}-model', f'SELECT * FROM int1.tbl1 AS t1 JOIN int2.tbl2 AS t2 ON {on} JOIN mindsdb.pred AS m'))
     q += [
         ('model-version', 'SELECT * FROM int1.tbl1 AS t JOIN mindsdb.pred.3 AS m'),
         ('model-project', 'SELECT * FROM int1.tbl1 AS t JOIN proj.pred2 AS m'),
